@@ -743,6 +743,10 @@ var pinnedScripts = []struct{ script, class string }{
 	{`unset u; IFS=:; p ${u:-a:b} "${u:-a:b}"`, ""},
 	{`IFS=1; p $((212)) x$((11))y "$((212))"`, ""},
 	{`read -a a <<< ""; p "${a[@]}"`, ""},
+	// an empty brace alternative is no word at all (syntax fix 8ee2f44; an empty literal would be an empty field)
+	{`x=' b'; p {,a} {,a}$x x{,a} {a,}{,b} ""{,a} {,}`, ""},
+	// one shell, IFS changing between expansions
+	{`IFS=:; a="x:y z"; p $a; unset IFS; p $a; IFS=; p $a; set -- 1 2; IFS=,; p "$*"; unset IFS; p "$*"`, ""},
 }
 
 func main() {
